@@ -21,7 +21,7 @@ HARNESSES.append(
                                 "strncpy.0": 20, "vf_harness:/for \\(/": n + 2})
                 for n in (6, 7, 8, 9, 10, 12)]))
 PROPERTY = dict(level='model_checking',
-    claim='All DER primitives of asn1.c and parseGeneralNames are memory-safe on every buffer of every size up to the bound and leave cursor/lengths inside the buffer; stored GeneralNames are NUL-terminated, text entries printable. ocspParseBasicResponse stays inside an arbitrary 40-byte input, its result array and stores only pointer/length pairs inside the input; the DH parameter parser returns the exact privateValueLength (0..40) and its counting loop is bounded. parseSingleResponse, psOcspParseResponse, psX509ParseCRL, the certificate field parsers (signature, serial, version, validity, unique ids), psX509GetDNAttributes, the RSA / EC subjectPublicKey parsers and (thorough) the glue of parse_single_cert stay inside exact-size inputs of 10..40 bytes, with the next parser level as window-checking stubs.',
+    claim='All DER primitives of asn1.c and parseGeneralNames are memory-safe on every buffer of every size up to the bound and leave cursor/lengths inside the buffer; stored GeneralNames are NUL-terminated, text entries printable. ocspParseBasicResponse stays inside an arbitrary 40-byte input, its result array and stores only pointer/length pairs inside the input; the DH parameter parser returns the exact privateValueLength (0..40) and its counting loop is bounded. parseSingleResponse, psOcspParseResponse, psX509ParseCRL, the certificate field parsers (signature, serial, version, validity, unique ids), psX509GetDNAttributes, the RSASSA-PSS parameter parser, the RSA / EC subjectPublicKey parsers and (thorough) the glue of parse_single_cert stay inside exact-size inputs of 10..40 bytes, with the next parser level as window-checking stubs.',
     bounds='asn1 primitives: every buffer size 0..10 (thorough 24); GeneralNames: 6- and 9-byte DER (thorough up to 12)',
     outside='getExplicitExtensions (no verdict in 30 min), a complete certificate through psX509ParseCert (needs > 40 symbolic bytes), private-key / PKCS#8 / PKCS#12 / PEM parsers, OCSP request encoding; inputs longer than the stated sizes',
     explanation='All DER primitives of asn1.c and parseGeneralNames are memory-safe on every buffer of every size up to the bound and leave cursor/lengths inside the buffer; stored GeneralNames are NUL-terminated, text entries printable.',
@@ -124,3 +124,11 @@ HARNESSES.append(
                                "memmove:/for \\(i = 0/": 66, "malloc:/for \\(j = /": 9, "vf_heap_slot_of:/for \\(j = /": 9},
          cap_s=3600,
          cases=[dict(name="size40", tier="thorough", defs={"VF_SIZE": 40})]))
+
+HARNESSES.append(
+    dict(name="pss_params", src="pss_params.c", checks=M, units=["crypto/keyformat/asn1.c"],
+         functions=["getRsaPssParams", "getAsnLength", "getAsnAlgorithmIdentifier", "getAsnInteger"], sources=["crypto/keyformat/x509.c", "crypto/keyformat/asn1.c"],
+         assumptions=["pss_params: input is an object of exactly 24 bytes, contents arbitrary; first and second pass"],
+         undefined_ok="*", cbmc_flags=["--object-bits", "10"],
+         unwind=12, unwindset={"vf_bytes:/./": 60, "checkAsnOidDatabase:/while \\(1\\)/": 8, "memcmp.0": 26, "getAsnOID:/./": 60},
+         cases=[dict(name="size24", defs={"VF_SIZE": 24})]))
